@@ -60,7 +60,6 @@ Record pstate := {
   log : list cb                     (* invocation log, most recent LAST *)
 }.
 
-Definition odefault {A} (d : A) (o : option A) : A := match o with Some x => x | None => d end.
 
 Section WithRegex.
   Variable re_match : str -> str -> bool.     (* Python re.match(pattern, uri) is not None *)
